@@ -424,6 +424,11 @@ func (api *API) mapDecodeStructFields(
 		mapVal, has := m[fieldKey]
 		if !has {
 			if sField.settings.isOptional || sField.settings.omitEmpty {
+				// no value: a destination field that still holds one (the destination of an earlier decode) is reset,
+				// the decoded object is a function of the document
+				if fieldValue.CanSet() && !fieldValue.IsZero() {
+					fieldValue.Set(reflect.Zero(fieldValue.Type()))
+				}
 				// initialize an empty slice if the kind is slice and its a nil pointer
 				if fieldValue.Kind() == reflect.Slice && fieldValue.IsNil() {
 					fieldValue.Set(reflect.MakeSlice(fieldValue.Type(), 0, 0))
@@ -466,6 +471,11 @@ func (api *API) mapDecodeSlice(ctx context.Context, mapVal any, value reflect.Va
 	refVal := reflect.ValueOf(mapVal)
 	if refVal.Kind() != reflect.Slice && refVal.Kind() != reflect.Array {
 		return ierrors.Errorf("non slice value in map when decoding a slice, got %T instead", mapVal)
+	}
+	// the decoded slice consists of the decoded elements only: what a reused destination still holds is dropped
+	// (the elements are appended below; bounds and must-occur are rules about the decoded elements)
+	if !value.IsNil() {
+		value.Set(reflect.Zero(valueType))
 	}
 	for i := range refVal.Len() {
 		elemValue := reflect.New(valueType.Elem()).Elem()
@@ -547,7 +557,9 @@ func (api *API) mapDecodeMap(ctx context.Context, mapVal any, value reflect.Valu
 		return ierrors.Errorf("non map[string]any in struct map decode, got %T instead", mapVal)
 	}
 
-	if value.IsNil() {
+	// the decoded map consists of the decoded entries only: a reused destination that still holds entries is replaced
+	// (the duplicate-key test below is about the keys of the input, the bounds about the decoded entries)
+	if value.IsNil() || value.Len() != 0 {
 		value.Set(reflect.MakeMap(valueType))
 	}
 
